@@ -15,12 +15,14 @@
   the unchanged code beyond that (witness `uniq_loses_names`, found while proving this).
   Witnesses (`decide`) for the recorded defects on `Cfg.unchanged` and their absence on
   `Cfg.repaired` where a repair exists.
-  Not proved: completeness of find under `Small`, the full iterator refinement (`edit_refines`),
+  Proved since: `find_eq_idxOf` (find = first position, small names).
+  Not proved: the full iterator refinement (`edit_refines`),
   duplicate-freedom after `uniq` (false: F16-UNIQ); these are tied to the plain-list specification
   by the correspondence run only.
 -/
 import PdshVerif.Hostlist.LemmasFind
 import PdshVerif.Hostlist.LemmasUniq
+import PdshVerif.Hostlist.LemmasFindFirst
 
 namespace PdshVerif.C16
 open PdshVerif.Hostlist PdshVerif.Gen
@@ -85,6 +87,13 @@ theorem find_sound (rs : List HRange) (name : Str) (i : Nat) (rs' : List HRange)
         exact hostnameCreateAt_pre_len name _ (Nat.le_refl _) (hostPrefix_split name).1)
     rs 0 i rs' hg h
   simpa using this.2
+
+/-- FIND = FIRST POSITION (`find_eq_idxOf`): on good records and for a SMALL name (its whole trailing
+    digit run, read as a number, ≤ MAX_HOST_SUFFIX = 2^25) `hostlist_find` answers exactly the plain
+    list's answer: the first index holding that name, or -1 when the name is not in the list -/
+theorem find_eq_idxOf (rs : List HRange) (name : Str) (hg : ∀ r ∈ rs, r.Good) (hsm : SmallName name) :
+    (findRanges rs name).1 = if name ∈ hostsL rs then some ((hostsL rs).idxOf name) else none :=
+  findRanges_eq_idxOf rs name hg hsm
 
 /-
   Completeness of find ("every host of the list is found") is FALSE of the code: a numeric tail
